@@ -63,6 +63,9 @@ fn conn_error(kind: ErrorKind) -> Error {
 fn c17_params_poison() {
     // a server that has not yet received the client's parameters (or a client, symmetric)
     let mut p = Parameters::new_server(ServerParameters::default());
+    // (the harness keeps its own handles on the two parameter sets, so that replacing the state by
+    // the error does not run the drop glue of the parameter maps: irrelevant here and expensive)
+    let keep = (p.client.clone(), p.server.clone());
     let n: usize = kani::any();
     kani::assume(n <= 2);
     let w0 = waker(0);
@@ -98,4 +101,5 @@ fn c17_params_poison() {
     kani::cover!(n == 2, "two waiting tasks");
     kani::cover!(n == 0, "nobody waiting");
     ::core::mem::forget(arc);
+    ::core::mem::forget(keep);
 }
